@@ -721,11 +721,30 @@ def nontrivial(c, r):
     return r['res'][0] == 'ok' and len(r['res'][1]) >= 1
 
 
+def share_assets(rng, c):
+    """equivalent construction: some bundles of the wallet hold ONE Asset object under two policies (the driver shares the
+    object for equal literals when the case carries share=True) — value arithmetic must treat each policy as its own copy"""
+    if c['kind'] != 'e2e' or rng.random() >= 0.15:
+        return c
+    extra = ['ab' * 28, 'cd' * 28]
+    hit = False
+    for u in c['utxos']:
+        if u['m'] and rng.random() < 0.6:
+            have = {p for p, _ in u['m']}
+            for p in extra:
+                if p not in have and rng.random() < 0.7:
+                    u['m'] = u['m'] + [[p, [list(x) for x in u['m'][0][1]]]]
+                    hit = True
+    if hit:
+        c['share'] = True
+    return c
+
+
 def gen_cases(ctx, n_e2e, n_sel, n_calc, n_pack):
     cases = [dict(c) for c in corpus_cases()]
     ncorpus = len(cases)
-    cases += [gen_e2e(ctx.rng) for _ in range(n_e2e)]
-    cases += [gen_sel(ctx.rng) for _ in range(n_sel)]
+    cases += [share_assets(ctx.rng, gen_e2e(ctx.rng)) for _ in range(n_e2e)]
+    cases += [share_assets(ctx.rng, gen_sel(ctx.rng)) for _ in range(n_sel)]
     cases += [gen_live(ctx.rng) for _ in range(max(40, n_sel // 2))]
     cases += [gen_calc(ctx.rng) for _ in range(n_calc)]
     cases += [gen_pack(ctx.rng) for _ in range(n_pack)]
